@@ -35,7 +35,9 @@ def fmt_tol(fmt, digits=None):
         return 10.0 ** -int(digits)
     if base in fw.EXACT:
         return 0.0
-    if base in ("stl", "ply", "glb", "gltf", "binvox"):
+    if base == "binvox":
+        return 1e-12  # the header carries translate and scale as shortest-exact decimal text of the doubles
+    if base in ("stl", "ply", "glb", "gltf"):
         return 2.0**-23  # float32
     if base == "3mf":
         return 1e-6
